@@ -25,4 +25,9 @@ for id in $IDS; do
 	bad=$(echo "$refout" | grep -c HARNESS)
 	echo "$id: $lines runs x 6 processes identical=$([ $rc -eq 0 ] && echo yes || echo NO) hash=$ref harness-errors=$bad"
 done
+# Stub fidelity: simulated transport vs. a real loopback net/http server (fault-free histories).
+tmp=$(mktemp -d /var/tmp/verif-self-XXXXXX)
+VERIF_ARGS="{\"mode\":\"driver\",\"property\":\"SELF\",\"tier\":\"quick\",\"seed\":${VERIF_SEED:-1},\"workers\":8,\"budget_s\":${VERIF_SELF_BUDGET_S:-15},\"evidence\":\"$tmp/ev.json\",\"replay_dir\":\"$tmp\",\"known_file\":\"/nonexistent\",\"engine\":\"A\"}" "$S/runnerA.test" -test.run '^TestSim$' -test.timeout 0 | tail -3
+[ ${PIPESTATUS[0]} -eq 0 ] || rc=1
+rm -rf "$tmp"
 exit $rc
